@@ -24,6 +24,7 @@ import (
 	"crypto"
 	"crypto/ecdsa"
 	"crypto/ed25519"
+	"crypto/elliptic"
 	"crypto/rsa"
 	"encoding/base64"
 	"encoding/json"
@@ -192,6 +193,41 @@ func CheckCompactJWS(token []byte) error {
 	return nil
 }
 
+// CheckAlgorithmFitsKey returns an error if the signature algorithm does not belong to the type and curve of the verification key.
+// The JOSE library does not compare them: an ECDSA signature with an ES256 header (SHA-256) verifies with a P-384 key.
+// Key types and curves this function does not know are left to the JOSE library.
+func CheckAlgorithmFitsKey(alg jwa.SignatureAlgorithm, key crypto.PublicKey) error {
+	var fits bool
+	switch k := key.(type) {
+	case *ecdsa.PublicKey:
+		fits = k != nil && algorithmFitsCurve(alg, k.Curve)
+	case ecdsa.PublicKey:
+		fits = algorithmFitsCurve(alg, k.Curve)
+	case ed25519.PublicKey:
+		fits = alg == jwa.EdDSA
+	case *rsa.PublicKey, rsa.PublicKey:
+		fits = alg == jwa.PS256 || alg == jwa.PS384 || alg == jwa.PS512 || alg == jwa.RS256 || alg == jwa.RS384 || alg == jwa.RS512
+	default:
+		fits = true
+	}
+	if !fits {
+		return fmt.Errorf("token signing algorithm does not fit the verification key: %s", alg)
+	}
+	return nil
+}
+
+func algorithmFitsCurve(alg jwa.SignatureAlgorithm, curve elliptic.Curve) bool {
+	switch curve {
+	case elliptic.P256():
+		return alg == jwa.ES256
+	case elliptic.P384():
+		return alg == jwa.ES384
+	case elliptic.P521():
+		return alg == jwa.ES512
+	}
+	return true
+}
+
 // PublicKeyFunc defines a function that resolves a public key based on a kid
 type PublicKeyFunc func(kid string) (crypto.PublicKey, error)
 
@@ -209,6 +245,9 @@ func ParseJWT(tokenString string, f PublicKeyFunc, options ...jwt.ParseOption) (
 
 	if !jwx.IsAlgorithmSupported(alg) {
 		return nil, fmt.Errorf("token signing algorithm is not supported: %s", alg)
+	}
+	if err = CheckAlgorithmFitsKey(alg, key); err != nil {
+		return nil, err
 	}
 
 	options = append(options, jwt.WithKey(alg, key))
@@ -246,6 +285,9 @@ func ParseJWS(token []byte, f PublicKeyFunc) (payload []byte, err error) {
 		kid := signature.ProtectedHeaders().KeyID()
 		key, err := f(kid)
 		if err != nil {
+			return nil, err
+		}
+		if err = CheckAlgorithmFitsKey(alg, key); err != nil {
 			return nil, err
 		}
 		// This seems an awkward way of appending 3 arrays.
